@@ -23,7 +23,7 @@ StepOK(rec) ==
       [] rec.op = "era"  -> LET e == EraseOp(pre, rec.k) IN
                               SameSt(rec.post, e.s) /\ e.ret = rec.ret /\ Aux(rec.pre) = Aux(rec.post)
       [] rec.op = "find" -> LET f == Find(pre, rec.k) IN
-                              rec.post = rec.pre /\ f.f = rec.ret /\ f.par = rec.par
+                              rec.post = rec.pre /\ f.f = rec.ret /\ (rec.nopar \/ f.par = rec.par)
       [] rec.op = "foreach" -> LET f == ForeachOp(pre, rec.rev, rec.stop) IN
                               rec.post = rec.pre /\ f.ev = rec.ev /\ f.ret = rec.ret
       [] rec.op = "clear" -> LET c == ClearOp(pre) IN
